@@ -367,6 +367,24 @@ static const char* numeric_range_convertible_types()
     return "cihTF";
 }
 
+//! equality for collapsing values into "Nx value": rtosc_arg_vals_eq_single,
+//! but floats must also have the same bit pattern (+0.0 == -0.0, yet only
+//! one of them is printed for the whole run)
+static int same_for_run(const rtosc_arg_val_t* a, const rtosc_arg_val_t* b)
+{
+    if(!rtosc_arg_vals_eq_single(a, b, NULL))
+        return 0;
+    size_t n = incsize(a); // an array is followed by its elements
+    for(size_t i = 0; i < n; ++i)
+        if(a[i].type == b[i].type &&
+           ((a[i].type == 'f' && memcmp(&a[i].val.f, &b[i].val.f,
+                                       sizeof(a[i].val.f))) ||
+            (a[i].type == 'd' && memcmp(&a[i].val.d, &b[i].val.d,
+                                       sizeof(a[i].val.d)))))
+            return 0;
+    return 1;
+}
+
 //! tries to convert all args starting at @a arg into
 //! an arg val range - if possible
 //! @param arg_out array, output which must have the size of arg or more;
@@ -394,8 +412,10 @@ static int32_t rtosc_convert_to_range(const rtosc_arg_val_t* const arg,
     int has_delta;
     rtosc_arg_val_t delta, added;
 
-    if(rtosc_arg_vals_eq_single(arg, arg + incsize(arg), NULL))
+    if(same_for_run(arg, arg + incsize(arg)))
         has_delta = 0;
+    else if(rtosc_arg_vals_eq_single(arg, arg + incsize(arg), NULL))
+        return 0; // equal, but not the same (signed zeros)
     else if(strchr(numeric_range_convertible_types(), arg->type)) {
         has_delta = 1;
         rtosc_arg_val_sub(arg+1, arg, &delta);
@@ -418,9 +438,9 @@ static int32_t rtosc_convert_to_range(const rtosc_arg_val_t* const arg,
                     break;
             }
 
-            if(next >= size || !rtosc_arg_vals_eq_single(has_delta ? &added
-                                                                   : arg,
-                                                         arg+next, NULL))
+            if(next >= size ||
+               !(has_delta ? rtosc_arg_vals_eq_single(&added, arg+next, NULL)
+                           : same_for_run(arg, arg+next)))
                 go_on = false;
         }
     }
